@@ -116,7 +116,7 @@ P("C02", module="AJ.Props.C02All", extra=[("AJ.Props.SlotCor", ["C02"]), ("AJ.Pr
                                                                                                                        S.JsonSerSuite(cfg={"ENABLE_INFINITY": 1}, n=300), S.JsonSerSuite(cfg={"ENABLE_NAN": 1}, n=300)]),
   partial=["NaN/Infinity texts under the non-standard options are outside the grammar by design"])
 
-P("C03", module="AJ.Props.C03All", extra=[("AJ.Props.C03", ["C03"]), ("AJ.Props.C03Doc", ["C03"]), ("AJ.Props.C03MpDoc", ["C03"]), ("AJ.Props.C03FDoc", ["C03"]), ("AJ.Props.C03FMpDoc", ["C03"])], level_text="C03.filtered_(mp_)deserialized_document_wf / _traversable / _clearable / _reusable: the same four statements for the FILTERED deserializers (models JDDF/MDDF), every filter. C03.deserialized_document_wf(_any_oracle) / _traversable / _clearable / _reusable: for EVERY byte string, limit, configuration, starting document and allocator-failure schedule, the slot-level models of deserializeJson AND deserializeMsgPack (mp_* twins) leave a well-formed document (chains acyclic, slots used once and live, reference counts sufficient) that can be traversed, cleared and deserialized into again by either format, whatever code is returned. Theorems for every configuration, limit, filter and byte string, JSON (filtered and unfiltered) and MessagePack: the deserializer never takes more bytes "
+P("C03", module="AJ.Props.C03All", extra=[("AJ.Props.SlotCor2", ["C03"]), ("AJ.Props.C03", ["C03"]), ("AJ.Props.C03Doc", ["C03"]), ("AJ.Props.C03MpDoc", ["C03"]), ("AJ.Props.C03FDoc", ["C03"]), ("AJ.Props.C03FMpDoc", ["C03"])], level_text="C03.filtered_(mp_)deserialized_document_wf / _traversable / _clearable / _reusable: the same four statements for the FILTERED deserializers (models JDDF/MDDF), every filter. C03.deserialized_document_wf(_any_oracle) / _traversable / _clearable / _reusable: for EVERY byte string, limit, configuration, starting document and allocator-failure schedule, the slot-level models of deserializeJson AND deserializeMsgPack (mp_* twins) leave a well-formed document (chains acyclic, slots used once and live, reference counts sufficient) that can be traversed, cleared and deserialized into again by either format, whatever code is returned. Theorems for every configuration, limit, filter and byte string, JSON (filtered and unfiltered) and MessagePack: the deserializer never takes more bytes "
   "than the input has; it terminates (the model's fuel 2*len+4 is never exhausted) and never reaches a fault state (powers-of-ten table index in range for every literal); the code is "
   "one of the six documented ones. The model is compared with the real library on bounded-exhaustive token sequences, mutated and random inputs through nine reader kinds, inputs in "
   "exactly-sized heap blocks under ASan+UBSan; source independence is checked on the implementation directly.",
@@ -143,7 +143,7 @@ P("C07", module="AJ.Props.C07All", extra=[("AJ.Props.SlotCor", ["C07"]), ("AJ.Pr
                        # the bytes read back from every kind of source (piecewise std::istream included), and 32-bit string headers in a build with 2-byte slot ids
                        S.MpDeSuite(cfg=DEF, n=500 if tier == "quick" else 40000), S.RoundTripSuite(cfg=G["len4id2"], n=120 if tier == "quick" else 5000)])
 
-P("C08", level_text="Theorem: for every raw-free document within the 64-bit/32-bit limits, an independent decoder written from the MessagePack specification decodes "
+P("C08", module="AJ.Props.C08All", extra=[("AJ.Props.C08", ["C08"]), ("AJ.Props.SlotCor2", ["C08"])], level_text="C08.mp_buffer_count / _prefix / _no_nul / _untouched / _content / _exact_fit / _truncated: serializeMsgPack into a bounded buffer returns min(capacity, length), stores exactly that prefix, writes no terminator and leaves every other byte untouched, for every document and capacity. Theorem: for every raw-free document within the 64-bit/32-bit limits, an independent decoder written from the MessagePack specification decodes "
   "serializeMsgPack's output to exactly one object denoting the document (integers by value and sign, strings byte-exact, floats bit-exact or the integer of the same value, narrowing of "
   "doubles only when lossless), with the shortest headers on both sides of every boundary. bin/ext values built through the API are modelled and compared; destinations, counts and "
   "bounded buffers are checked in the harness; an independent Python decoder judges the implementation's bytes.",
@@ -151,7 +151,7 @@ P("C08", level_text="Theorem: for every raw-free document within the 64-bit/32-b
   suites=lambda tier: [S.MpSerSuite(cfg=DEF), S.SerBufSweep(cfg=DEF, fmt="mp", n=40 if tier == "quick" else 1500), S.MpSerSuite(cfg=G["len1"], n=300 if tier == "quick" else 20000)] +
   ([S.MpSerSuite(cfg=G["len4"], n=2000)] if tier == "thorough" else []))
 
-P("C09", module="AJ.Props.C09All", extra=[("AJ.Props.C09", ["C09"]), ("AJ.Props.C09Prefix", ["C09"]), ("AJ.Props.C09Doc", ["C09"])],
+P("C09", module="AJ.Props.C09All", extra=[("AJ.Props.SlotCor2", ["C09"]), ("AJ.Props.C09", ["C09"]), ("AJ.Props.C09Prefix", ["C09"]), ("AJ.Props.C09Doc", ["C09"])],
   level_text="Theorems: every serialized document is accepted and decoded to the value it encodes with exact consumption (any trailing bytes); "
   "C09.enc_accepts: every encoding of the syntactic predicate MD.Enc (any legal width at every place: fix/8/16/32 lengths and counts, bin, ext, fixext, nested containers, within the limits) is "
   "accepted, for every filter; prefix_classification / enc_prefix_classification / run_prefix_by_consumed: every proper prefix gives IncompleteInput (EmptyInput for the empty input) with the "
@@ -229,12 +229,12 @@ P("C13", module="AJ.Props.C13All", extra=[("AJ.Props.C13", ["C13"]), ("AJ.Props.
   level_note="writes outside the destination on the binary are observed by ASan and the guard pattern; the model has destinations of fixed length by construction",
   suites=lambda tier: [S.ConvSuite(cfg=DEF), S.CopyArrSuite(cfg=DEF), S.MpDeSuite(cfg={"USE_LONG_LONG": 0}, n=500 if tier == "quick" else 30000)])
 
-P("C15", module="AJ.Props.C15All", extra=[("AJ.Props.C15", ["C15"]), ("AJ.Props.C01Doc", ["C15"]), ("AJ.Props.C09Doc", ["C15"])], level_text="Theorems for JSON (filtered and unfiltered) and MessagePack, any bytes, any limit: Ok implies nesting <= L; L+1 opening brackets/headers give TooDeep after exactly "
+P("C15", module="AJ.Props.C15All", extra=[("AJ.Props.SlotCor2", ["C15"]), ("AJ.Props.C15", ["C15"]), ("AJ.Props.C01Doc", ["C15"]), ("AJ.Props.C09Doc", ["C15"])], level_text="Theorems for JSON (filtered and unfiltered) and MessagePack, any bytes, any limit: Ok implies nesting <= L; L+1 opening brackets/headers give TooDeep after exactly "
   "L+1 bytes, also inside discarded parts; raising the limit changes nothing unless the result was TooDeep (never otherwise). Stack use is compared between inputs of depth L+1 and 2000.",
   level_note="stack bytes are observed on the binary; 'as soon as' for nested objects is covered by the correspondence",
   suites=lambda tier: [S.DepthSuite(cfg=DEF), S.DepthSuite(cfg=CFG_ALL)])
 
-P("C16", module="AJ.Props.C16All", extra=[("AJ.Props.SlotCor", ["C16"]), ("AJ.Props.C01", ["C16"]), ("AJ.Props.C16", ["C16"]), ("AJ.Props.C16Seq", ["C16"]), ("AJ.Props.C09Doc", ["C16"])],
+P("C16", module="AJ.Props.C16All", extra=[("AJ.Props.SlotCor2", ["C16"]), ("AJ.Props.SlotCor", ["C16"]), ("AJ.Props.C01", ["C16"]), ("AJ.Props.C16", ["C16"]), ("AJ.Props.C16Seq", ["C16"]), ("AJ.Props.C09Doc", ["C16"])],
   level_text="Theorems: deserializeJson consumes the leading white space and exactly the bytes of the top-level value, plus one byte when it is a number and something follows "
   "(number_consumes_at_most_one_more, run_doc, exact_consumption); deserializeMsgPack consumes exactly the bytes of one object; C16.json_sequence / json_sequence_gen: for any list of documents "
   "of the dialect (any configuration and limit) written back to back, where only a number must be followed by a white-space byte, k successive calls return exactly the documents one after "
